@@ -42,11 +42,15 @@ def base_cfg(rng, prof):
         cfg['consts'] = [['PRE_A', rng.choice([1, 7, 300])], ['PRE_B', rng.choice([2, 64])]]
     if rng.random() < prof.get('p_data', 0.25):
         cfg['data'] = [['pdata', rng.choice([0x300, 0x310, 0x3f8]), rng.choice([0, 0xAA, 0x1FF]), rng.choice([1, 2, 4])]]
+    if rng.random() < 0.15:
+        cfg['upper_regs'] = True
     if rng.random() < 0.3:
         cfg['syms'] = [[rng.choice(SYMS), rng.choice(['0', '1', '5', '1', None])]]
+        if rng.random() < 0.06:
+            cfg['syms'].append([cfg['syms'][0][0], '7'])          # the same symbol listed twice in the configuration: rejected
     if rng.random() < 0.3:
         s = rng.choice([x for x in SYMS if x not in [y[0] for y in cfg['syms']]])
-        cfg['cli'] = [[s, rng.choice(['0', '1', '2', '', '1=1'])]]       # (the name ends at the first '=')
+        cfg['cli'] = [[s, rng.choice(['0', '1', '2', '', '1=1', '1,2'])]]       # (the name ends at the first '=')
     return cfg
 
 
